@@ -48,6 +48,10 @@ class Report:
             self.violation(rule, "FLOOR", "rule %s matched %d instances, fewer than the %d confirmed by hand: "
                            "a rule matching less than before passes vacuously" % (rule, found, floor))
 
+    def instances(self, rule):
+        """number of instances of `rule` evaluated so far (held + violated)."""
+        return sum(1 for o in self.oks if o[0] == rule) + sum(1 for v in self.viols if v["rule"] == rule and not v["key"].startswith(("ANCHOR", "FLOOR")))
+
     def note(self, msg):
         self.notes.append(msg)
 
